@@ -23,7 +23,7 @@ BUILT = {
 
  "C09": dict(
    technique="TLA+ spec Port.tla model-checked with TLC (tail-drop and RED configs) + TLC trace validation of the real Port/REDPort/PortMonitor on TLC-emitted and random lattice workloads",
-   text="Exhaustive TLC run of the timed port specification (all arrival patterns within the stated bounds, three limit modes, rate 0, RED with scripted draws) checks the departure law, occupancy bound, counter identity, byte accounting and the RED region rules; every emitted workload (sampled in the quick tier) and seeded random larger ones are executed on the real classes and each recorded trace (arrivals, departures, monitor samples, public counters after every event) must be a behaviour of the same specification.",
+   text="Exhaustive TLC run of the timed port specification (all arrival patterns within the stated bounds, three limit modes, rate 0, zero-size packets, RED with scripted draws) checks the departure law, occupancy bound, counter identity, byte accounting and the RED region rules; every emitted workload (sampled in the quick tier) and seeded random larger ones are executed on the real classes and each recorded trace (arrivals, departures, monitor samples, public counters after every event) must be a behaviour of the same specification.",
    note="integer time/size lattice (rate = 8/K); off-lattice float rounding and RED drop frequencies are not decided; TLC and the JSON trace plumbing are trusted",
    design="6/C09"),
  "C01": dict(
@@ -58,12 +58,12 @@ BUILT = {
    design="6/C10"),
  "C11": dict(
    technique="TLA+ specs TokenBucket.tla and TwoRateTB.tla model-checked with TLC + TLC trace validation of the real TokenBucket/TwoRateTokenBucket",
-   text="Exhaustive TLC runs check the conformance inequality over the history of debit instants, ReleaseLaw/EarliestRelease, PeakSpacing, FIFO, losslessness and for the two-rate bucket the colour rule, shaping law and GreenConformsToCIR; emitted and random lattice workloads (packets larger than the bucket, idle periods, bursts, arrivals at release instants) are replayed on the real classes, binding departure instants, colours and the token levels the attributes denote.",
+   text="Exhaustive TLC runs check the conformance inequality over the history of debit instants, ReleaseLaw/EarliestRelease, PeakSpacing, FIFO, losslessness and for the two-rate bucket the colour rule, shaping law and GreenConformsToCIR; emitted and random lattice workloads (packets larger than the bucket, idle periods, bursts, arrivals at release instants, packets already coloured by an upstream meter) are replayed on the real classes, binding departure instants, colours and the token levels the attributes denote.",
    note="integer lattice (rate = 8R); the committed level after a yellow/red packet is left open as the property does; serial one-packet-at-a-time reading recorded as an assumption",
    design="6/C11"),
  "C18": dict(
    technique="TLA+ specs Routing.tla, FatTree.tla, FatTreeNet.tla model-checked with TLC; TLC evaluates structure and FIB-walk properties on graphs/tables exported from the real FatTree(k); TLC trace validation of the real demuxes/switches/hub/splitters and of end-to-end fat-tree simulations",
-   text="TLC enumerates all small forwarding tables, output lists, end-device maps, hub populations and splitter fan-outs against the routing relations (exactly one output or none, end device before table, empty table valid, unknown flow to default, hub all-but-sender through port devices, splitter original first and independent copies); put-level traces of the real classes are validated against the same module. For k in {2,4,6,8} (quick: fewer) the networkx graph, flows and FIBs exported from the real FatTree are checked by TLC for the k-ary fat-tree structure, shortest paths and the hop-by-hop FIB walk (and reverse ACK class); end-to-end simulations on the real switches are validated by a Deliver trace spec.",
+   text="TLC enumerates all small forwarding tables, output lists, end-device maps, hub populations and splitter fan-outs against the routing relations (exactly one output or none, end device before table, empty table valid, unknown flow to default, hub all-but-sender through port devices, splitter original first and independent copies carrying every header field); put-level traces of the real classes are validated against the same module. For k in {2,4,6,8} (quick: fewer) the networkx graph, flows and FIBs exported from the real FatTree are checked by TLC for the k-ary fat-tree structure, shortest paths and the hop-by-hop FIB walk (and reverse ACK class); end-to-end simulations on the real switches are validated by a Deliver trace spec.",
    note="negative flow ids and table entries naming non-existent ports are outside the stated domain; SimplePacketSwitch is read as routing by FlowDemux rules",
    design="6/C18"),
  "C12": dict(
@@ -78,7 +78,7 @@ BUILT = {
    design="6/C13"),
  "C14": dict(
    technique="TLA+ spec Sched.tla (policies WFQ, VC) model-checked with TLC + TLC trace validation of the real WFQ and VirtualClock binding finish_times/vtime/aux_vc",
-   text="TLC checks StampOrder on the selection history, counter exactness and the static-backlog fairness bound |S_i/w_i - S_j/w_j| <= Lmax/w_i + Lmax/w_j on all workloads within the bounds; emitted and random lattice workloads (idle periods that reset virtual time, equal stamps, shared classes) are run on the real WFQ and VC, binding the stamp given to every arriving packet, the virtual time and the departure order.",
+   text="TLC checks StampOrder on the selection history, counter exactness and the static-backlog fairness bound |S_i/w_i - S_j/w_j| <= Lmax/w_i + Lmax/w_j on all workloads within the bounds; emitted and random lattice workloads (idle periods that reset virtual time, equal stamps, shared classes, weights scaled by powers of two down to fractions summing to less than 1) are run on the real WFQ and VC, binding the stamp given to every arriving packet, the virtual time and the departure order.",
    note="WFQ sizes and instants are multiples of lcm(1..sum of weights) so every stamp is an exact integer; equal (stamp, arrival instant) ties are left open",
    design="6/C14"),
  "C15": dict(
